@@ -1,28 +1,30 @@
 #!/bin/bash
-# usage: try_seed.sh <seed-dir> <prop> [verify]
-#   seed-dir contains patch.diff, demo test file, demo_path.txt
-# "verify": confirm in a scratch worktree that the patch builds, the existing suite passes,
-#           and the demo fails with / passes without the patch.
-# always : apply to /repo, run ./check <prop> --tier quick, undo.
+# usage: try_seed.sh <seed-dir> <prop> [verify] [tier]
+#   seed-dir contains patch.diff, a demo *_test.go, demo_path.txt
+# Works in a scratch worktree of /repo (removed afterwards); /repo itself is not touched:
+# the check is pointed at the worktree with VERIF_REPO.
+# "verify": also confirm that the patch builds, the existing suite passes, and the demo fails with /
+#           passes without the patch.
 set -u
-SD=$1; P=$2; MODE=${3:-}
+SD=$(cd $1 && pwd); P=$2; MODE=${3:-}; TIER=${4:-quick}
 export GOFLAGS=-mod=mod GOPROXY=off GOSUMDB=off GOTOOLCHAIN=local
+WT=$(mktemp -d /tmp/wtv-XXXX); rmdir $WT
+git -C /repo worktree add -q --detach $WT HEAD || exit 2
+trap 'git -C /repo worktree remove --force $WT' EXIT
+cd $WT
 if [ "$MODE" = "verify" ]; then
-  WT=$(mktemp -d /tmp/wtv-XXXX); rmdir $WT
-  git -C /repo worktree add -q --detach $WT HEAD || exit 2
   DP=$(cat $SD/demo_path.txt)
   DEMO=$(ls $SD/*_test.go | head -1)
-  ( cd $WT && cp $DEMO $WT/$DP && PKG=./$(dirname $DP)
-    echo "--- demo WITHOUT patch (must pass)"; go test -vet=off -count=1 -timeout 300s -run 'Demo' $PKG 2>&1 | tail -3
-    git apply $SD/patch.diff || { echo "PATCH DOES NOT APPLY"; exit 3; }
-    echo "--- build"; go build ./... 2>&1 | tail -3
-    echo "--- demo WITH patch (must fail)"; go test -vet=off -count=1 -timeout 300s -run 'Demo' $PKG 2>&1 | tail -3
-    rm -f $WT/$DP
-    echo "--- existing suite WITH patch (must pass)"; go test -vet=off -count=1 -timeout 25m ./... 2>&1 | grep -v "no test files" | tail -12 )
-  git -C /repo worktree remove --force $WT
+  cp $DEMO $WT/$DP; PKG=./$(dirname $DP)
+  echo "--- demo WITHOUT patch (must pass)"; go test -vet=off -count=1 -timeout 300s -run 'Demo' $PKG 2>&1 | tail -3
+  git apply $SD/patch.diff || { echo "PATCH DOES NOT APPLY"; exit 3; }
+  echo "--- build"; go build ./... 2>&1 | tail -3
+  echo "--- demo WITH patch (must fail)"; go test -vet=off -count=1 -timeout 300s -run 'Demo' $PKG 2>&1 | tail -3
+  rm -f $WT/$DP
+  echo "--- existing suite WITH patch (must pass)"; go test -vet=off -count=1 -timeout 25m ./... 2>&1 | grep -v "no test files" | grep -v "^ok" | tail -12; echo "suite done"
+else
+  git apply $SD/patch.diff || { echo "PATCH DOES NOT APPLY"; exit 3; }
 fi
 cd /verif
-git -C /repo apply $SD/patch.diff || { echo "apply to /repo failed"; exit 3; }
-echo "--- ./check $P quick WITH patch"
-./check $P --tier quick 2>/dev/null | cut -c1-400 | head -8; echo "rc=${PIPESTATUS[0]}"
-git -C /repo checkout -- . && git -C /repo status --short | head -3
+echo "--- ./check $P $TIER WITH patch"
+VERIF_REPO=$WT VERIF_NOEVIDENCE=1 ./check $P --tier $TIER 2>/dev/null | cut -c1-300 | head -6; echo "rc=${PIPESTATUS[0]}"
